@@ -220,6 +220,9 @@ def run(ctx, chk, tier):
     from . import c11
     c11.dynamic_method(ctx, chk, rule="R18.7", classes=(c11.GROUP,))
     frame_state_untouched(ctx, chk)
+    # the replicates are metrics of bootstrap samples and of the per-group objects cut out of them: whatever is built with is_sorted=True is ascending
+    from . import c01 as _c01s
+    _c01s.construction_sites(ctx, chk)
     # the intervals of the frame are utils.bootstrap_ci applied to the (N, G, T) replicate array: its formula and axis roles (C13) are part of
     # "computed for the same quantity, under the same labels"
     from . import c13
